@@ -796,3 +796,67 @@ def register(reg):
         modifies=["*FS.exists", "*FS.content", "*D.str.val.dom", "*D.str.val.val", "*D.str.int.dom", "*D.str.int.val",
                   "*L.ref.len", "*L.ref.elem"],
         props=["C12", "C05"])
+
+    # ------------------------------------------------------------------------------------------------
+    # constructors: Balancer.__init__ establishes the configuration predicate CFG that every pipeline-level contract requires,
+    # so the pipeline-level claims hold for every Balancer built by its constructor (for column names that do not collide with
+    # the tool's own columns)
+    FPP = "synrbl/postprocess.py"
+    reg.contract(FPP, "Validator.__init__",
+                 params={"self": Obj("Validator"), "reaction_col": STR, "method": STR, "solved_col": STR, "solved_method_col": STR,
+                         "unbalance_col": STR, "carbon_balance_col": STR, "issue_col": STR, "check_carbon_balance": BOOL, "n_jobs": VAL},
+                 ensures=["self.reaction_col == reaction_col and self.method == method and self.solved_col == solved_col and "
+                          "self.solved_method_col == solved_method_col and self.unbalance_col == unbalance_col and "
+                          "self.check_carbon_balance == check_carbon_balance and self.carbon_balance_col == carbon_balance_col and self.issue_col == issue_col"],
+                 modifies=["self"], props=["C01", "C03", "C04", "C13"])
+    reg.contract("synrbl/mcs_search.py", "MCSSearch.__init__",
+                 params={"self": Obj("MCSSearch"), "id_col": STR, "solved_col": STR, "mcs_data_col": STR, "issue_col": STR, "n_jobs": VAL},
+                 ensures=["self.id_col == id_col and self.solved_col == solved_col and self.mcs_data_col == mcs_data_col and self.issue_col == issue_col"],
+                 modifies=["self"], props=["C01", "C03", "C04", "C13"])
+    reg.contract(FM, "MCSBasedMethod.__init__",
+                 params={"self": Obj("MCSBasedMethod"), "reaction_col": STR, "output_col": STR, "mcs_data_col": STR, "issue_col": STR,
+                         "rules_col": STR, "carbon_balance_col": STR, "smiles_standardizer": List(Obj("Standardizer"))},
+                 ensures=["self.reaction_col == reaction_col and len(self.output_col) == 1 and self.output_col[0] == output_col and "
+                          "self.mcs_data_col == mcs_data_col and self.issue_col == issue_col and self.rules_col == rules_col and "
+                          "self.carbon_balance_col == carbon_balance_col and fresh(self.output_col)"],
+                 modifies=["self"], props=["C01", "C03", "C04", "C13"])
+    reg.contract("synrbl/SynChemImputer/post_process.py", "PostProcess.__init__",
+                 params={"self": Obj("PostProcess"), "id_col": STR, "reaction_col": STR, "n_jobs": VAL, "verbose": VAL},
+                 ensures=["self.id_col == id_col and self.reaction_col == reaction_col"],
+                 modifies=["self"], props=["C01", "C03", "C04", "C13"])
+    reg.contract("synrbl/rule_based.py", "RuleBasedMethod.__init__",
+                 params={"self": Obj("RuleBasedMethod"), "id_col": STR, "reaction_col": STR, "output_col": STR, "n_jobs": VAL},
+                 ensures=["self.id_col == id_col and self.reaction_col == reaction_col and self.output_col == output_col"],
+                 modifies=["self"], assumed=True,
+                 note="field assignments; the rule database is loaded from the packaged json.gz (file access not modelled)",
+                 props=["C01", "C03", "C04", "C13"])
+    reg.contract(FCP, "ConfidencePredictor.__init__",
+                 params={"self": Obj("ConfidencePredictor"), "reaction_col": STR, "input_reaction_col": STR, "confidence_col": STR, "solved_col": STR,
+                         "solved_by_col": STR, "solved_by_method": STR, "issue_col": STR, "mcs_col": STR},
+                 ensures=["self.reaction_col == reaction_col and self.input_reaction_col == input_reaction_col and self.confidence_col == confidence_col and "
+                          "self.solved_col == solved_col and self.solved_by_col == solved_by_col and self.solved_by_method == solved_by_method and "
+                          "self.issue_col == issue_col and self.mcs_col == mcs_col"],
+                 modifies=["self"], assumed=True,
+                 note="field assignments; the scoring model is loaded with joblib from the packaged dump (file access not modelled)",
+                 props=["C01", "C03", "C04", "C13"])
+    reg.contract("synrbl/SynChemImputer/molecule_standardizer.py", "Standardizer.__init__", params={"self": Obj("Standardizer")},
+                 assumed=True, note="MoleculeStandardizer(): builds its functional-group query object", props=[])
+    reg.classdecl("MoleculeStandardizer", {})
+
+    @reg.external("MoleculeStandardizer")
+    def _mk_standardizer(eng, st, ctx, args, kw, node):
+        return SV(Obj("Standardizer"), st.new_ref())
+
+    BF2 = dict(BF)
+    BF2.update({"_Balancer__confidence_col": STR, "_Balancer__n_jobs": VAL, "batch_size": VAL, "cache": VAL, "cache_dir": VAL, "columns": List(STR)})
+    reg.classdecl("Balancer", BF2)
+    RCa, ICa = "reaction_col", "id_col"
+    reg.contract(
+        FBAL, "Balancer.__init__",
+        params={"self": Obj("Balancer"), "reaction_col": STR, "id_col": STR, "confidence_threshold": REAL, "n_jobs": VAL, "batch_size": VAL,
+                "cache": VAL, "cache_dir": VAL},
+        # the user's two column names must not collide with each other or with the tool's own columns
+        requires=["%s != %s and " % (RCa, ICa) + " and ".join("%s != %s and %s != %s" % (RCa, f, ICa, f) for f in FIXED)],
+        ensures=CFG + ["%s == reaction_col and %s == id_col and self.confidence_threshold == confidence_threshold and self.remove_aam == True" % (RC, IC)],
+        modifies=["self"],
+        props=["C01", "C03", "C04", "C13", "C18"])
